@@ -530,3 +530,5 @@ SPECS["C04"]["queries"] += [P_STEP1[1], P_STEP1[4]]   # every extracted message,
 SPECS["C04"]["encodes"] += ["lp/process.c:process_msg (gvt_on_msg_extraction hook)"]
 SPECS["C01"]["queries"] += [SPECS["C13"]["queries"][0]]  # fossil collection never reclaims what a later same-timestamp straggler needs
 SPECS["C06"]["queries"] += [SPECS["C13"]["queries"][0]]  # ... nor a processed buffer its sender can still cancel
+
+SPECS["C05"]["queries"] += [P_L3]   # coast-forward re-executes exactly the still-valid events (do_rollback/silent_execution)
